@@ -220,9 +220,13 @@ pub fn run(report: &Report, thorough: bool) -> Evidence {
     }
 
     // ---------------- phonetic method ----------------
-    if crate::par::part_enabled("phonetic") {
-        let keys: Vec<Ev> = "aser".chars().map(Ev::ch).collect();
-        let depth = if thorough { 6 } else { 5 };
+    // two alphabets: letters whose words split into base + suffix, and punctuation / emoticon
+    // characters (compositions without a word part, e.g. the emoticon ;) with its emoji)
+    let plans: Vec<(&str, usize)> = vec![("aser", if thorough { 6 } else { 5 }), ("a;).:", if thorough { 5 } else { 4 })];
+    let mut ph_parts = vec![];
+    for (plan_keys, depth) in plans {
+      if crate::par::part_enabled("phonetic") {
+        let keys: Vec<Ev> = plan_keys.chars().map(Ev::ch).collect();
         let conts: Vec<Vec<Ev>> = {
             let mut v: Vec<Vec<Ev>> = keys.iter().map(|k| vec![k.clone()]).collect();
             for a in &keys {
@@ -276,7 +280,7 @@ pub fn run(report: &Report, thorough: bool) -> Evidence {
             let st = histgraph::bfs(
                 |w| {
                     let mut o = o.clone();
-                    o.xdg = scratch_xdg(&format!("c06p-{}-{}", bits, w));
+                    o.xdg = scratch_xdg(&format!("c06p-{}-{}-{}", depth, bits, w));
                     Ctx::new(&o).expect("ctx")
                 },
                 &files,
@@ -405,8 +409,10 @@ pub fn run(report: &Report, thorough: bool) -> Evidence {
         }
         states += total.states;
         transitions += total.transitions;
-        parts.insert("phonetic_graph".into(), json!({"configurations": n_cfg, "depth": depth, "states": total.states, "transitions": total.transitions, "word_endings_checked": endings.load(Ordering::Relaxed), "continuations_replayed_in_used_context": cont_runs.load(Ordering::Relaxed), "continuation_set": conts.len(), "distinct_outcomes": total.distinct_outcomes}));
+        ph_parts.push(json!({"keys": plan_keys, "configurations": n_cfg, "depth": depth, "states": total.states, "transitions": total.transitions, "word_endings_checked": endings.load(Ordering::Relaxed), "continuations_replayed_in_used_context": cont_runs.load(Ordering::Relaxed), "continuation_set": conts.len(), "distinct_outcomes": total.distinct_outcomes}));
+      }
     }
+    parts.insert("phonetic_graphs".into(), json!(ph_parts));
 
     let mut ev = Evidence::new("C06", &report.tier, "model_checking");
     ev.set("states", states);
